@@ -114,6 +114,9 @@ func (p *storeProxy) reset() {
 
 var _ header.Store[*vh.Header] = (*storeProxy)(nil)
 
+// pruneFault selects the interrupted-and-retried pruning variant of newStore.
+var pruneFault bool
+
 // newStore builds a real Store holding chain heights tail..head (pruned through DeleteRange when tail > 1).
 func newStore(t *testing.T, chain *vh.Chain, tail, head int) (*store.Store[*vh.Header], *rec.Store) {
 	rs := rec.New()
@@ -131,7 +134,29 @@ func newStore(t *testing.T, chain *vh.Chain, tail, head int) (*store.Store[*vh.H
 	if err := st.Sync(bg); err != nil {
 		t.Fatal(err)
 	}
-	if tail > 1 {
+	if tail > 2 && pruneFault {
+		// variant: the pruning is interrupted by a datastore fault between the two deletions of the header right
+		// under the new tail, and retried from the store's tail until it succeeds (what a pruner does)
+		rs.FailWrites(2*(tail-2)+1, 1)
+		err := st.DeleteRange(bg, 1, uint64(tail))
+		for k := 0; err != nil && k < 4; k++ {
+			tl, terr := st.Tail(bg)
+			if terr != nil {
+				t.Fatal(terr)
+			}
+			if tl.Height() >= uint64(tail) {
+				err = nil
+				break
+			}
+			err = st.DeleteRange(bg, tl.Height(), uint64(tail))
+		}
+		if err != nil {
+			t.Fatal(err)
+		}
+		if rs.Failed() != 1 {
+			t.Fatalf("scripted fault fired %d times", rs.Failed())
+		}
+	} else if tail > 1 {
 		if (tail+head)%2 == 1 {
 			// every other store is pruned the way a long-running node is: its caches are warm (everything was read
 			// before) and the deletion takes the parallel path
